@@ -23,6 +23,8 @@ if ROUND == '10':
     MAP = {'A': 'Q', 'B': 'R'}
 if ROUND == '11':
     MAP = {'A': 'S', 'B': 'T'}
+if ROUND == '12':
+    MAP = {'A': 'U', 'B': 'V'}
 for p in sys.argv[1:]:
     notes=open('/tmp/wt/%s/seeded/NOTES.md'%p).read()
     unconfirmed = []
